@@ -58,7 +58,7 @@ func (e *Engine) load(pkgPaths []string) error {
 	if nerr > 0 {
 		return fmt.Errorf("%d package load errors", nerr)
 	}
-	prog, spkgs := ssautil.AllPackages(pkgs, ssa.InstantiateGenerics)
+	prog, spkgs := ssautil.AllPackages(pkgs, ssa.InstantiateGenerics|ssa.GlobalDebug)
 	prog.Build()
 	e.prog = prog
 	e.fset = fset
